@@ -329,7 +329,10 @@ L2_STATE = ("gain", "max_gain")     # AgcImpl fields: current gain, ceiling
 
 
 def _is_field(n, name):
+    """name: a member name, or ("local", decl id) for a local that carries the member's value"""
     n = n.strip_all()
+    if isinstance(name, tuple):
+        return n.k == "DeclRefExpr" and n.decl and n.decl.get("id") == name[1]
     return n.k == "MemberExpr" and n.decl and n.decl.get("k") == "field" and n.decl.get("n") == name
 
 
@@ -366,6 +369,92 @@ def _find_clamps(f, gain, ceil):
     return out
 
 
+def _l2_core(f, gain, ceil, check_exit, skip_write):
+    """-> (verdict, reason, line).  gain is a member name or a ("local", id) carrier"""
+    gname = gain if not isinstance(gain, tuple) else gain[2]
+    writes, reads = [], []
+    clamps = _find_clamps(f, gain, ceil)
+    clamp_ids = set()
+    for c in clamps:
+        for x in c.walk():
+            clamp_ids.add(x.id)
+    for n in f.walk():
+        if n.id in clamp_ids:
+            continue
+        if n.k in ("BinaryOperator", "CompoundAssignOperator") and n.op and n.op.endswith("=") and n.op not in ("==", "!=", "<=", ">=") \
+                and n.c and _is_field(n.c[0], gain) and not skip_write(n):
+            writes.append(n)
+    write_lhs = {w.c[0].strip_all().id for w in writes}
+    for n in f.walk():
+        if n.id in clamp_ids:
+            continue
+        if _is_field(n, gain) and n.strip_all().id == n.id and n.id not in write_lhs:
+            if n.parent is not None and n.parent.k in ("BinaryOperator",) and n.parent.op == "=" and n.parent.c[0].strip_all().id == n.id:
+                continue          # left side of an exempt (transfer) assignment
+            reads.append(n)
+    if not writes:
+        return (DISCHARGED, "the only writes of %s are the clamp itself%s" % (gname, " and transfers from a clamped local" if not isinstance(gain, tuple) else ""), f.line)
+    if not clamps:
+        return (VIOLATED, "%s is updated (%s, line %d) but no clamp against %s exists in the updating function" % (gname, writes[0].text(), writes[0].line, ceil), f.line)
+    f.blocks
+    clamp_pos = {}
+    for c in clamps:
+        loc = f.block_of(c.role("cond") if c.k == "IfStmt" else c)
+        if loc:
+            clamp_pos.setdefault(loc[0], []).append(loc[1])
+    reads_at = {}
+    for r in reads:
+        rl = f.block_of(r)
+        if rl:
+            reads_at.setdefault(rl[0], []).append((rl[1], r))
+    bad = None
+    for w in writes:
+        wl = f.block_of(w)
+        if wl is None:
+            continue
+        bw, j = wl
+        first_clamp = min([c for c in clamp_pos.get(bw, []) if c > j], default=None)
+        for (i, r) in sorted(reads_at.get(bw, []), key=lambda t: t[0]):
+            if i > j and (first_clamp is None or i < first_clamp):
+                bad = (w, r, "use")
+                break
+        if bad:
+            break
+        if first_clamp is not None:
+            continue
+        seen = set()
+        work = [s_ for s_ in f.blocks[bw].succs if s_ is not None]
+        while work and not bad:
+            b_ = work.pop()
+            if b_ in seen or b_ not in f.blocks:
+                continue
+            seen.add(b_)
+            if b_ == f.exit:
+                if check_exit:
+                    bad = (w, None, "exit")
+                    break
+                continue
+            cpos = min(clamp_pos.get(b_, []), default=None)
+            for (i, r) in sorted(reads_at.get(b_, []), key=lambda t: t[0]):
+                if cpos is None or i < cpos:
+                    bad = (w, r, "use")
+                    break
+            if cpos is None:
+                work.extend(s_ for s_ in f.blocks[b_].succs if s_ is not None)
+        if bad:
+            break
+    if bad:
+        w, r, kind = bad
+        if kind == "use":
+            why = "%s updated at line %d (%s) reaches its use at line %d (%s) on a path that does not pass the clamp" % (
+                gname, w.line, w.text(), r.line, (r.parent.parent.text() if r.parent is not None and r.parent.parent is not None else r.text()))
+            return (VIOLATED, why, r.line)
+        why = "%s updated at line %d (%s) reaches the end of %s on a path that does not pass the clamp: whoever reads it next sees an unclamped value" % (gname, w.line, w.text(), f.short)
+        return (VIOLATED, why, w.line)
+    return (DISCHARGED, "%d update(s) of %s reach its %d use(s)%s only through the clamp at line %s" % (
+        len(writes), gname, len(reads), " and the function's end" if check_exit else "", ", ".join(str(c.line) for c in clamps)), f.line)
+
+
 def rule_L2(prog, fixture=False):
     res = RuleResult("L2", "wherever the AGC's gain state is updated, every path from the update to a use of the gain or to the end of "
                            "the updating function passes the clamp against max_gain (so the state is clamped whenever it is visible)")
@@ -393,89 +482,22 @@ def rule_L2(prog, fixture=False):
     for f in funcs:
         key = "L2:" + fkey(f)
         where = "%s:%d" % (prog.rel(f.file), f.line)
-        writes, reads = [], []
-        clamps = _find_clamps(f, gain, ceil)
-        clamp_ids = set()
-        for c in clamps:
-            for x in c.walk():
-                clamp_ids.add(x.id)
+        # locals that carry the gain: written back to the member (agc.gain = g)
+        carriers = {}
+        transfers = set()
         for n in f.walk():
-            if n.id in clamp_ids:
-                continue
-            if n.k in ("BinaryOperator", "CompoundAssignOperator") and n.op and n.op.endswith("=") and n.op not in ("==", "!=", "<=", ">=") \
-                    and n.c and _is_field(n.c[0], gain):
-                writes.append(n)
-        write_lhs = {w.c[0].strip_all().id for w in writes}
-        for n in f.walk():
-            if n.id in clamp_ids:
-                continue
-            if n.k == "MemberExpr" and n.decl and n.decl.get("k") == "field" and n.decl.get("n") == gain and n.id not in write_lhs:
-                reads.append(n)
-        if not writes:
-            res.add(key, DISCHARGED, where, "%s clamps the gain" % f.short, "the only writes of the gain are the clamp itself", func=f.name)
-            continue
-        if not clamps:
-            res.add(key, VIOLATED, where, "%s clamps the gain" % f.short,
-                    "the gain state is updated (%s, line %d) but no clamp against %s exists in the updating function"
-                    % (writes[0].text(), writes[0].line, ceil), func=f.name)
-            continue
-        f.blocks
-        clamp_pos = {}
-        for c in clamps:
-            loc = f.block_of(c.role("cond") if c.k == "IfStmt" else c)
-            if loc:
-                clamp_pos.setdefault(loc[0], []).append(loc[1])
-        reads_at = {}
-        for r in reads:
-            rl = f.block_of(r)
-            if rl:
-                reads_at.setdefault(rl[0], []).append((rl[1], r))
-        bad = None
-        for w in writes:
-            wl = f.block_of(w)
-            if wl is None:
-                continue
-            bw, j = wl
-            first_clamp = min([c for c in clamp_pos.get(bw, []) if c > j], default=None)
-            for (i, r) in sorted(reads_at.get(bw, []), key=lambda t: t[0]):
-                if i > j and (first_clamp is None or i < first_clamp):
-                    bad = (w, r, "use")
-                    break
-            if bad:
-                break
-            if first_clamp is not None:
-                continue
-            seen = set()
-            work = [s_ for s_ in f.blocks[bw].succs if s_ is not None]
-            while work and not bad:
-                b_ = work.pop()
-                if b_ in seen or b_ not in f.blocks:
-                    continue
-                seen.add(b_)
-                if b_ == f.exit:
-                    bad = (w, None, "exit")
-                    break
-                cpos = min(clamp_pos.get(b_, []), default=None)
-                for (i, r) in sorted(reads_at.get(b_, []), key=lambda t: t[0]):
-                    if cpos is None or i < cpos:
-                        bad = (w, r, "use")
-                        break
-                if cpos is None:
-                    work.extend(s_ for s_ in f.blocks[b_].succs if s_ is not None)
-            if bad:
-                break
+            if n.k == "BinaryOperator" and n.op == "=" and len(n.c) == 2 and _is_field(n.c[0], gain):
+                r = n.c[1].strip_all()
+                if r.k == "DeclRefExpr" and r.decl and r.decl.get("k") == "local":
+                    carriers[r.decl["id"]] = r.decl["n"]
+                    transfers.add(n.id)
+        verdicts = []
+        for vid, vname in sorted(carriers.items()):
+            verdicts.append(_l2_core(f, ("local", vid, "the local '%s' that carries the gain" % vname), ceil, False, lambda n: False))
+        verdicts.append(_l2_core(f, gain, ceil, True, lambda n: n.id in transfers))
+        bad = [v for v in verdicts if v[0] == VIOLATED]
         if bad:
-            w, r, kind = bad
-            if kind == "use":
-                why = "the gain updated at line %d (%s) reaches its use at line %d (%s) on a path that does not pass the clamp" % (
-                    w.line, w.text(), r.line, (r.parent.parent.text() if r.parent is not None and r.parent.parent is not None else r.text()))
-                line = r.line
-            else:
-                why = "the gain updated at line %d (%s) reaches the end of %s on a path that does not pass the clamp: whoever reads it next sees an unclamped value" % (w.line, w.text(), f.short)
-                line = w.line
-            res.add(key, VIOLATED, "%s:%d" % (prog.rel(f.file), line), "%s clamps the gain" % f.short, why, func=f.name)
+            res.add(key, VIOLATED, "%s:%d" % (prog.rel(f.file), bad[0][2]), "%s clamps the gain" % f.short, bad[0][1], func=f.name)
         else:
-            res.add(key, DISCHARGED, where, "%s clamps the gain" % f.short,
-                    "%d update(s) of %s reach its %d use(s) and the function's end only through the clamp at line %s" % (len(writes), gain, len(reads), ", ".join(str(c.line) for c in clamps)),
-                    func=f.name)
+            res.add(key, DISCHARGED, where, "%s clamps the gain" % f.short, "; ".join(v[1] for v in verdicts), func=f.name)
     return res
